@@ -131,7 +131,7 @@ func (t *tr) function(fi *fnInfo) string {
 	sig := fi.obj.Type().(*types.Signature)
 	var params []string
 	for _, p := range fi.params {
-		params = append(params, "("+p+" : Z)")
+		params = append(params, "("+p.name+" : "+p.typ+")")
 	}
 	if fi.recv != nil {
 		if fi.recv.Name() == "" || fi.recv.Name() == "_" {
@@ -556,6 +556,17 @@ func (g *fnGen) returnStmt(s *ast.ReturnStmt, k kctx) []string {
 		if !ok {
 			g.failf(s, "return of a multi-value that is not a call")
 		}
+		if term, n, ok := g.ifaceTerm(call, &p); ok {
+			if n != sig.Results().Len() {
+				g.failf(s, "return of a call with %d results", n)
+			}
+			if k.top && !g.fi.mutates {
+				return emitPre(p, []string{term}) // tail call
+			}
+			tmp := g.fresh()
+			p = append(p, binding{pat: tmp, rhs: term})
+			return emitPre(p, k.ret(g.resultValue([]string{tmp})))
+		}
 		c := g.t.calleeOf(g.fi.pk, call)
 		if c == nil || c.mutates {
 			g.failf(s, "return of this call")
@@ -742,7 +753,7 @@ func (g *fnGen) loop(node ast.Stmt, cond ast.Expr, post ast.Stmt, body *ast.Bloc
 	var def strings.Builder
 	def.WriteString("Definition " + loopName)
 	for _, p := range g.fi.params {
-		def.WriteString(" (" + p + " : Z)")
+		def.WriteString(" (" + p.name + " : " + p.typ + ")")
 	}
 	for _, c := range caps {
 		def.WriteString(" (" + c.name + " : " + c.typ + ")")
@@ -763,7 +774,7 @@ func (g *fnGen) loop(node ast.Stmt, cond ast.Expr, post ast.Stmt, body *ast.Bloc
 	}
 	callBody := loopName
 	for _, p := range g.fi.params {
-		callBody += " " + p
+		callBody += " " + p.name
 	}
 	for _, c := range caps {
 		callBody += " " + c.name
@@ -895,6 +906,9 @@ func (g *fnGen) assignTo(lhs ast.Expr, v string) []string {
 			g.failf(lhs, "assignment to a field of %s", g.typeOf(x.X))
 		}
 		si := g.t.structInfoOf(lhs, n)
+		if !si.has(x.Sel.Name) {
+			g.failf(lhs, "field %s.%s has a type outside the subset", si.name, x.Sel.Name)
+		}
 		name := coqIdent(id.Name)
 		return []string{"let " + name + " := set_" + si.name + "_" + x.Sel.Name + " " + name + " " + paren(v) + " in"}
 	}
@@ -1029,6 +1043,23 @@ func (g *fnGen) callStmt(call *ast.CallExpr, p *[]binding, pats ...string) bool 
 		}
 		return true
 	}
+	if term, n, ok := g.ifaceTerm(call, p); ok {
+		if len(pats) == 1 && pats[0] == "_" && n != 1 {
+			pats = make([]string, n)
+			for i := range pats {
+				pats[i] = "_"
+			}
+		}
+		if len(pats) != n {
+			g.failf(call, "call with %d results bound to %d places", n, len(pats))
+		}
+		pat := tuple(pats)
+		if n == 0 {
+			pat = "_"
+		}
+		*p = append(*p, binding{pat: pat, rhs: term})
+		return true
+	}
 	if len(pats) != 1 {
 		return false
 	}
@@ -1113,6 +1144,9 @@ func (g *fnGen) expr(e ast.Expr, p *[]binding) string {
 				g.failf(e, "field of %s", g.typeOf(x.X))
 			}
 			si := g.t.structInfoOf(e, n)
+			if !si.has(x.Sel.Name) {
+				g.failf(e, "field %s.%s has a type outside the subset", si.name, x.Sel.Name)
+			}
 			return "(" + si.name + "_" + x.Sel.Name + " " + paren(g.expr(x.X, p)) + ")"
 		}
 		if o, ok := g.info.Uses[x.Sel].(*types.Var); ok && isErrorType(o.Type()) {
@@ -1392,7 +1426,7 @@ func (g *fnGen) userCall(call *ast.CallExpr, c *fnInfo, p *[]binding) string {
 	}
 	parts := []string{c.name}
 	for _, par := range c.params {
-		parts = append(parts, par)
+		parts = append(parts, par.name)
 	}
 	if c.recv != nil {
 		sel, ok := ast.Unparen(call.Fun).(*ast.SelectorExpr)
@@ -1408,6 +1442,19 @@ func (g *fnGen) userCall(call *ast.CallExpr, c *fnInfo, p *[]binding) string {
 		parts = append(parts, paren(g.exprAs(a, sig.Params().At(i).Type(), p)))
 	}
 	return strings.Join(parts, " ")
+}
+
+// ifaceTerm: a call of an interface method that is a parameter of the translation
+func (g *fnGen) ifaceTerm(call *ast.CallExpr, p *[]binding) (string, int, bool) {
+	name, sig, ok := g.t.ifaceCall(g.fi.pk, call)
+	if !ok {
+		return "", 0, false
+	}
+	parts := []string{name}
+	for i, a := range call.Args {
+		parts = append(parts, paren(g.exprAs(a, sig.Params().At(i).Type(), p)))
+	}
+	return strings.Join(parts, " "), sig.Results().Len(), true
 }
 
 // effectCall: builtins and library calls that live in the monad
@@ -1494,6 +1541,14 @@ func (g *fnGen) call(call *ast.CallExpr, p *[]binding) string {
 		term := g.userCall(call, c, p)
 		if c.pure {
 			return "(" + term + ")"
+		}
+		tmp := g.fresh()
+		*p = append(*p, binding{pat: tmp, rhs: term})
+		return tmp
+	}
+	if term, nres, ok := g.ifaceTerm(call, p); ok {
+		if nres != 1 {
+			g.failf(call, "call with %d results inside an expression", nres)
 		}
 		tmp := g.fresh()
 		*p = append(*p, binding{pat: tmp, rhs: term})
